@@ -51,7 +51,8 @@ pub struct Exp {
     /// one that destroys them)
     pub maybe: Vec<usize>,
     pub deltas: Vec<(u32, i64)>,
-    pub clones: Option<usize>,
+    /// (min, max) number of Clone::clone calls on the payload
+    pub clones: Option<(usize, usize)>,
     pub new_live: usize,
     /// the op is a constructor that unwound: (input identities, zero-sized inputs, leak tolerated)
     pub unwound: Option<(Vec<u32>, usize, bool)>,
@@ -188,12 +189,13 @@ impl<'a, F: Family> Cx<'a, F> {
             Some(b) => b,
             None => violation("no-allocation", format!("{}: the constructor returned but no new block is live", what)),
         };
+        // "large and aligned enough for the reference count plus the payload" (over-allocation is legal)
         let (size, align, off) = expected_layout::<F>(class, n);
-        if b.size != size || b.align != align {
+        if b.size < size || b.align < align || b.align % align != 0 {
             violation(
                 "layout:alloc",
                 format!(
-                    "{} (len {}): requested block size {} align {}, but counter+payload need size {} align {} ({})",
+                    "{} (len {}): requested block size {} align {}, but counter+payload need at least size {} align {} ({})",
                     what, n, b.size, b.align, size, align, F::NAME
                 ),
             );
@@ -223,6 +225,8 @@ impl<'a, F: Family> Cx<'a, F> {
             zst_body: 0,
             created_by: self.t as u8,
             elems_tracked: F::E::TRACKED,
+            off_seen: false,
+            observed: Vec::new(),
         }
     }
     pub fn push_alloc(&self, a: AllocM) -> usize {
@@ -316,6 +320,14 @@ pub fn exec_op<F: Family>(
             }
         }
     }
+    // inspection has no side effects: no destructor may have run while the handles were only read
+    let ev2 = take_events();
+    if !ev2.drops.is_empty() || ev2.zst_drops > 0 {
+        violation(
+            "early-drop",
+            format!("after `{}`: merely inspecting live handles (Deref, pointer and count accessors) ran destructor(s) {:?}", op.text(), ev2.drops),
+        );
+    }
     OpReport { skipped: false }
 }
 
@@ -339,12 +351,9 @@ fn post_check<F: Family>(env: &Env<F>, par: bool, t: usize, mark: usize, op: &Op
             _ => {}
         }
     }
-    if exp.no_alloc && (!allocated.is_empty() || !freed.is_empty()) {
-        violation(
-            "unexpected-alloc-traffic",
-            format!("`{}` must not touch the allocator but {} allocation(s) and {} release(s) happened", what, allocated.len(), freed.len()),
-        );
-    }
+    // (no property forbids temporaries: `no_alloc` is informational; new live blocks and frees of
+    // model-known blocks are checked below for every op)
+    let _ = exp.no_alloc;
 
     // parallel sections: did this op destroy any of the allocations it released an owner of?
     let mut drops_exp = std::mem::take(&mut exp.drops);
@@ -428,6 +437,8 @@ fn post_check<F: Family>(env: &Env<F>, par: bool, t: usize, mark: usize, op: &Op
                     zst_body: 0,
                     created_by: 0,
                     elems_tracked: false,
+                    off_seen: true,
+                    observed: Vec::new(),
                 })
             });
         }
@@ -477,7 +488,8 @@ fn post_check<F: Family>(env: &Env<F>, par: bool, t: usize, mark: usize, op: &Op
     }
 
     // ---- destructor events
-    let mut got = evs.drops.clone();
+    // identities the library created *and* destroyed inside this op are its own temporaries
+    let mut got: Vec<u32> = evs.drops.iter().copied().filter(|d| drops_exp.contains(d) || !evs.created.contains(d)).collect();
     got.sort_unstable();
     drops_exp.sort_unstable();
     if got != drops_exp {
@@ -508,8 +520,10 @@ fn post_check<F: Family>(env: &Env<F>, par: bool, t: usize, mark: usize, op: &Op
 
     // ---- counter deltas by this thread
     for (block, d) in &at.deltas {
-        if allocated.contains(block) && freed.contains(block) {
-            continue; // an allocation that lived and died inside this op (refused constructor)
+        if freed.contains(block) {
+            // the allocation went away in this op: what its counter word held at the very end is
+            // unobservable (a unique-owner fast path may legitimately skip the last decrement)
+            continue;
         }
         let e = exp.deltas.iter().find(|x| x.0 == *block).map(|x| x.1).unwrap_or(0);
         if *d != e {
@@ -520,6 +534,9 @@ fn post_check<F: Family>(env: &Env<F>, par: bool, t: usize, mark: usize, op: &Op
         }
     }
     for (block, e) in &exp.deltas {
+        if freed.contains(block) {
+            continue;
+        }
         if *e != 0 && !at.deltas.iter().any(|x| x.0 == *block) {
             violation(
                 "count-drift",
@@ -533,12 +550,12 @@ fn post_check<F: Family>(env: &Env<F>, par: bool, t: usize, mark: usize, op: &Op
             format!("`{}` is count-neutral but performed {} read-modify-write(s) on a reference count", what, at.rmws),
         );
     }
-    if let Some(c) = exp.clones {
+    if let Some((lo, hi)) = exp.clones {
         let n = evs.clones.len() + evs.zst_clones as usize;
-        if n != c {
+        if n < lo || n > hi {
             violation(
                 "clone-count",
-                format!("`{}` called Clone::clone on the payload {} time(s), specified {}", what, n, c),
+                format!("`{}` called Clone::clone on the payload {} time(s), specified {}", what, n, if hi == lo { format!("{}", lo) } else { format!("at least {}", lo) }),
             );
         }
     }
@@ -565,7 +582,42 @@ pub fn check_slot<F: Family>(s: &Slot<F>, env: &Env<F>, counts: bool, op: &Op, g
     if a.dead {
         violation("use-after-destroy", format!("{}: the allocation b{} was already destroyed", what(), a.block));
     }
+    // the accessors themselves must not move the count (C04: borrowing, with_arc, strong_count
+    // ... never change it, not even while the borrow is in use)
+    if counts {
+        let c0 = sim::peek(a.ptr);
+        let _ = s.h.view(false, true);
+        let c1 = sim::peek(a.ptr);
+        if c0 != c1 {
+            violation(
+                "count-touched",
+                format!("{}: reading the handle's pointer and count accessors changed the reference count word from {} to {}", what(), c0, c1),
+            );
+        }
+    }
     let v = s.h.view(true, counts);
+    // where the payload lives inside the block is learnt from the first observation (it must leave
+    // room for the counter, lie inside the block and be aligned) and must never move afterwards
+    let a = if !a.off_seen && v.data != 0 {
+        let off = v.data.wrapping_sub(a.ptr);
+        let b = ledger::block(a.block);
+        let (_, _, min_off) = expected_layout::<F>(a.class, a.nelems);
+        let psize = b.size.saturating_sub(off);
+        let (need, _, foff) = expected_layout::<F>(a.class, a.nelems);
+        if off < std::mem::size_of::<usize>() || off > b.size || psize < need - foff {
+            violation(
+                "addr:deref",
+                format!("{}: Deref yields block+{:#x} of a {}-byte block: no room for the counter before it or for the payload after it (expected offset {:#x})", what(), off, b.size, min_off),
+            );
+        }
+        env.m(|m| {
+            m.allocs[s.ai].data_off = off;
+            m.allocs[s.ai].off_seen = true;
+        });
+        env.m(|m| m.allocs[s.ai].clone())
+    } else {
+        a
+    };
     let data = a.ptr + a.data_off;
     for (n, p) in &v.heap_ptrs {
         if *p != a.ptr {
@@ -659,8 +711,22 @@ pub fn check_slot<F: Family>(s: &Slot<F>, env: &Env<F>, counts: bool, op: &Op, g
                 if raw != a.elems[i] {
                     violation("value-mismatch", format!("{}: written slot {} reads #{} but the model holds #{}", what(), i, raw, a.elems[i]));
                 }
-            } else if !env.passthrough && raw != fill_of(F::E::IDW) {
-                violation("uninit-slot-touched", format!("{}: never-written slot {} no longer holds the fresh-memory pattern (reads {:#x})", what(), i, raw));
+            } else if !env.passthrough {
+                // a never-written slot holds whatever it held when first observed, bit for bit
+                let prev = env.m(|m| {
+                    let o = &mut m.allocs[s.ai].observed;
+                    if o.len() <= i {
+                        o.resize(i + 1, None);
+                    }
+                    let p = o[i];
+                    o[i] = Some(raw);
+                    p
+                });
+                if let Some(p) = prev {
+                    if p != raw {
+                        violation("uninit-slot-touched", format!("{}: never-written slot {} changed from {:#x} to {:#x} although nobody wrote it", what(), i, p, raw));
+                    }
+                }
             }
         }
     }
@@ -670,8 +736,21 @@ pub fn check_slot<F: Family>(s: &Slot<F>, env: &Env<F>, counts: bool, op: &Op, g
                 if Some(raw) != a.val {
                     violation("value-mismatch", format!("{}: written value reads #{} but the model holds #{:?}", what(), raw, a.val));
                 }
-            } else if !env.passthrough && raw != fill_of(F::P::IDW) {
-                violation("uninit-slot-touched", format!("{}: never-written value no longer holds the fresh-memory pattern (reads {:#x})", what(), raw));
+            } else if !env.passthrough {
+                let prev = env.m(|m| {
+                    let o = &mut m.allocs[s.ai].observed;
+                    if o.is_empty() {
+                        o.push(None);
+                    }
+                    let p = o[0];
+                    o[0] = Some(raw);
+                    p
+                });
+                if let Some(p) = prev {
+                    if p != raw {
+                        violation("uninit-slot-touched", format!("{}: never-written value changed from {:#x} to {:#x} although nobody wrote it", what(), p, raw));
+                    }
+                }
             }
         }
     }
